@@ -304,6 +304,14 @@ Definition obs_of (m : wres) : wobs :=
   mkObs (map (fun q => mkOReq q true) (w_reqs m)) (w_err m) (s_samples (w_stats m)) (s_hist (w_stats m)) (s_exem (w_stats m))
         (w_delays m).
 
+Definition must_continue (cfg : wcfg) (script : list (outcome * cancel)) (n : nat) (seen : list outcome) : bool :=
+  match cancel_bound script, rev seen with
+  | None, last :: _ =>
+      if spec_retryable cfg last && ((c_max_retries cfg =? 0) || (Z.of_nat n <=? c_max_retries cfg))
+      then (n =? length script)%nat else true
+  | _, _ => true
+  end.
+
 (* the checker: [script] is what the server/context did, [ob] what was observed *)
 Definition spec_write_ok (cfg : wcfg) (ty : str) (k : msgkind) (script : list (outcome * cancel)) (ob : wobs) : bool :=
   let n := length (ob_reqs ob) in
@@ -353,7 +361,11 @@ Definition spec_write_ok (cfg : wcfg) (ty : str) (k : msgkind) (script : list (o
           (if werr_eqb (ob_err ob) WCanceled then true
            else eq3 got (sum3 (map (spec_stats_of t) seen))) &&
           (* Retry-After honoured: the next request arrives no earlier *)
-          gaps_ok (ob_gaps ob) seen
+          gaps_ok (ob_gaps ob) seen &&
+          (* a retryable answer IS retried while the caller's context is alive and the budget allows:
+             with no cancellation in the script, the call may stop after a retryable answer only when the
+             retries are used up (or the script has no further entry) *)
+          must_continue cfg script n seen
       end
   end.
 
